@@ -17,6 +17,7 @@ import (
 //	f8-*:    they do not (the known expiry-order finding)
 var directedNames = []string{
 	"exact-expiry-revert", "exact-first-of-two", "exact-single", "exact-rewindow-single",
+	"exact-rewindow-first-of-two", "exact-form-and-rewindow-into-shared-list",
 	"f8-proof-first-of-three", "f8-proof-last-of-two", "f8-rewindow-first-of-three",
 	"revise-and-prove-in-one-block", "revise-window-and-prove-in-one-block",
 }
@@ -33,7 +34,7 @@ func buildDirected(r *rng.R, env *chaingen.Env, name string) scenario {
 	switch name {
 	case "exact-expiry-revert":
 		we = 4
-	case "exact-first-of-two", "f8-proof-last-of-two":
+	case "exact-first-of-two", "f8-proof-last-of-two", "exact-rewindow-first-of-two", "exact-form-and-rewindow-into-shared-list":
 		nContracts = 2
 	case "exact-single", "exact-rewindow-single", "revise-and-prove-in-one-block", "revise-window-and-prove-in-one-block":
 		nContracts = 1
@@ -61,7 +62,17 @@ func buildDirected(r *rng.R, env *chaingen.Env, name string) scenario {
 		xs = []*chaingen.Node{s.Extend(b2, func(b *chaingen.Builder) { b.AddV1ProofOf(pick(0)) })}
 	case "f8-proof-last-of-two":
 		xs = []*chaingen.Node{s.Extend(b2, func(b *chaingen.Builder) { b.AddV1ProofOf(pick(1)) })}
-	case "exact-rewindow-single", "f8-rewindow-first-of-three":
+	case "exact-form-and-rewindow-into-shared-list":
+		// append-then-delete: the reverted blocks form a contract into the shared list and move
+		// another contract (first of two) into a list that is shared as well
+		x3 := s.Extend(b2, func(b *chaingen.Builder) {
+			b.AddV1Form(r, 5, we)
+			b.AddV1Form(r, 6, we+1)
+			b.AddV1ReviseOf(pick(0), we+1)
+		})
+		x4 := s.Extend(x3, func(b *chaingen.Builder) { b.AddV1Form(r, 6, we+1) })
+		xs = []*chaingen.Node{x3, x4}
+	case "exact-rewindow-single", "f8-rewindow-first-of-three", "exact-rewindow-first-of-two":
 		xs = []*chaingen.Node{s.Extend(b2, func(b *chaingen.Builder) { b.AddV1ReviseOf(pick(0), we+1) })}
 	case "revise-window-and-prove-in-one-block":
 		// consensus accepts it; the store is expected to panic while applying it, so no builder may apply it
